@@ -2,6 +2,7 @@
 from __future__ import annotations
 
 import itertools
+import os
 
 from . import gen
 from .core import Ctx, Stream, digest, load_known, pmap
@@ -438,3 +439,42 @@ def partial_name_stream(ctx: Ctx, stream: Stream, n: int):
                                    "expanded": gen.rule_line(expanded) if expanded else None, "python": python_snippet(compact)})
             if len(ctx.violations) >= 3:
                 return
+
+
+# ----------------------------------------------------------------------------- interpreter modes
+def interpreter_modes(ctx, section):
+    """harness/oprobe.py: the same fixed cases evaluated by a normal interpreter and by one started with -O; whether a rule
+    holds, the lines of its report and the configuration errors raised must not depend on the optimisation mode."""
+    import json
+    import subprocess
+    import sys
+
+    from .core import InfraError, Stream
+    from .proto import VERIF
+
+    s = Stream(ctx, f"interpreter modes: fixed '{section}' cases in a normal interpreter vs python -O (assert statements compiled away)")
+    outs = []
+    env = dict(os.environ, PYTHONHASHSEED="0")
+    for flags in ([], ["-O"]):
+        p = subprocess.run([sys.executable] + flags + ["-m", "harness.oprobe", section], cwd=VERIF, env=env, capture_output=True, text=True, timeout=300)
+        try:
+            outs.append(json.loads(p.stdout.strip().split("\n")[-1]))
+        except Exception:  # noqa: BLE001
+            if flags:
+                # the library does not even run under -O: every outcome differs
+                outs.append({"optimised": True, "outcomes": ["CRASH|" + p.stderr.strip().split("\n")[-1][:200]] * len(outs[0]["outcomes"])})
+            else:
+                raise InfraError("oprobe failed in the normal interpreter: " + p.stderr[-800:])
+    a, b = outs
+    if a["optimised"] or not b["optimised"]:
+        raise InfraError("oprobe: interpreter modes not as requested")
+    for i, (x, y) in enumerate(zip(a["outcomes"], b["outcomes"])):
+        s.evaluations += 1
+        s.count(x.split("|")[0])
+        s.nontrivial.add(i)
+        if x != y and len(ctx.violations) < 3:
+            ctx.violations.append({"kind": "property-violation",
+                                   "what": f"outcome depends on the interpreter's optimisation mode (python -O): case #{i} of harness/oprobe.py section '{section}'",
+                                   "normal": x, "optimised": y,
+                                   "python": f"/venv/bin/python -O -m harness.oprobe {section}   # vs the same without -O (cwd /verif, VERIF_REPO set)"})
+    s.finish()
